@@ -16,6 +16,9 @@ def VecFits (len off n inc : Int) : Prop := 0 ≤ off ∧ (0 < n → off + (n - 
 /-- the `m × n` block with leading dimension `ld` starting at `off` lies inside a buffer of `len` elements -/
 def MatFits (len off m n ld : Int) : Prop := 0 ≤ off ∧ (0 < m → 0 < n → m ≤ ld ∧ off + (n - 1) * ld + m ≤ len)
 
+/-- `n` contiguous elements starting at `off` lie inside a buffer of `len` elements -/
+def SegFits (len off n : Int) : Prop := 0 ≤ off ∧ (0 < n → off + n ≤ len)
+
 theorem iabs_cases (a : Int) : (a < 0 ∧ iabs a = -a) ∨ (0 ≤ a ∧ iabs a = a) := by
   unfold iabs; split <;> omega
 
